@@ -302,6 +302,36 @@ def gen_large(sc, n_ops):
             sc.free(s)
     sc.verify()
 
+def gen_huge(sc):
+    """one allocation >= 4 GiB (only virtual address space is used: non-poisoning policies) mixed with ordinary ones:
+    sb_reservation / length arithmetic beyond 32 bits, unmap of the whole reservation"""
+    rng, cfg = sc.rng, sc.cfg
+    sizes = interesting_sizes(cfg)
+    huge = rng.choice([(4 << 30) + 12345, (4 << 30), (4 << 30) + cfg.page, (5 << 30) - 1, (4 << 30) - cfg.page - 1 + rng.randrange(3)])
+    if rng.random() < 0.5:
+        sc.lines.append("recycle")
+    pre = [sc.alloc(rng.choice(sizes)) for _ in range(rng.choice([0, 2, 5]))]
+    h = sc.alloc(huge, fill=False)
+    sc.getsize(h)
+    mid = [sc.alloc(rng.choice(sizes)) for _ in range(rng.choice([1, 3]))]
+    sc.verify()
+    r = rng.random()
+    if r < 0.3:
+        sc.realloc(h, rng.choice([100, cfg.maxsmall + 1, huge - 5]), fill=False)      # in place
+        sc.getsize(h); sc.verify()
+    elif r < 0.5:
+        sc.realloc(h, huge + cfg.page * 3, fill=False)                                 # moves to another huge region
+        sc.verify()
+    for s in pre[:1] + mid[:1]:
+        sc.free(s)
+    sc.free(h, sized=rng.random() < 0.5 and None)
+    sc.verify()
+    if rng.random() < 0.5:
+        h2 = sc.alloc(huge, fill=False); sc.verify(); sc.free(h2, sized=False)
+    for s in sc.live_slots():
+        sc.free(s)
+    sc.verify()
+
 MODES = {
     "C01": ["mixed", "mixed", "fill", "fill", "large", "realloc", "fault"],
     "C02": ["realloc", "realloc", "fill", "fill", "mixed", "large", "fault"],
@@ -324,6 +354,8 @@ def gen_case(rng, cfg, focus="C01", mode=None):
         gen_fault(sc, rng.choice([20, 60]))
     elif mode == "large":
         gen_large(sc, rng.choice([20, 60]))
+    elif mode == "huge":
+        gen_huge(sc)
     return mode, sc.lines
 
 def by_name(cfgs, name):
@@ -346,6 +378,19 @@ def corpus(cfgs):
     for q in cfgs:
         cs.append(("corpus-d42-churn-" + q.name, [q.line, "a 0 64 ok", "churn 64 1", "v", "churn 64 1000", "v", "churn 9 3", "a 1 9 ok",
                                                   "churn 9 2", "v", "f 0", "churn 64 5", "v", "f 1", "v"]))
+    # seeded miss 2: a reservation >= 4 GiB (frame::sb_reservation narrowed to 32 bits unmapped len mod 2^32)
+    for q in cfgs:
+        if not q.poison:
+            n = (4 << 30) + 12345
+            cs.append(("corpus-huge-4g-" + q.name, [q.line, "a 0 100 ok", "a 1 %d ok" % n, "g 1", "a 2 %d ok" % (q.maxsmall + 1), "v",
+                                                    "r 1 %d ok" % (n - 7), "g 1", "f 0", "f 1", "v", "a 3 %d ok" % n, "d 3 %d" % n, "f 2", "v"]))
+    # seeded miss 1: page == sb: a large block starts exactly on a superblock boundary (the -1 of the frame lookup)
+    for q in cfgs:
+        if q.page == q.sb:
+            m = q.maxsmall
+            cs.append(("corpus-page-eq-sb-" + q.name, [q.line, "a 0 %d ok" % (m + 1), "w 0 0 %d 3" % (m + 1), "g 0", "a 1 %d ok" % (3 * q.sb), "g 1",
+                                                       "r 0 %d ok" % (m + 2), "g 0", "r 0 %d ok" % (2 * q.sb + 5), "c 0 0 24", "g 0", "v", "d 1 %d" % (3 * q.sb),
+                                                       "f 0", "v", "a 2 %d ok" % (m + 1), "f 2", "v"]))
     for q in cfgs:
         cs.append(("corpus-sizeclasses-" + q.name, [q.line, "sc"]))
         cs.append(("corpus-first-map-fails-" + q.name, [q.line, "a 0 24 fail", "a 1 24 ok", "a 2 %d fail" % (q.maxsmall + 1), "a 3 %d ok" % (q.maxsmall + 1),
